@@ -3,14 +3,14 @@ CONSTANTS
   Svcs = {"a", "b", "c"}
   Cap = 2
   MaxOps = 4
-  MaxFails = 2
+  MaxFails = 1
   FixEnqueue = TRUE
   FixBatch = TRUE
   LossySend = TRUE
   HasKeepalive = TRUE
-  DirectCalls = TRUE
-  MaxMsgLen = 1
-  AsyncApply = FALSE
-INVARIANTS NotW7
-
+  DirectCalls = FALSE
+  MaxMsgLen = 3
+  AsyncApply = TRUE
+INVARIANTS TypeOK
+PROPERTIES Converges
 CHECK_DEADLOCK FALSE
